@@ -75,6 +75,7 @@ def run(scn, stats):
     reran = collections.Counter()  # (task, item) -> failed attempts that were re-executed
     owed = set()  # failed executions selected by a rerun
     skip_executed = False
+    reset_owed = set()  # executions whose items a rerun with reset_items has reset
     rounds = 0
     skip_twin = False
     try:
@@ -131,10 +132,31 @@ def run(scn, stats):
                 tasks = [[t, rt, True] for t, rt in failed]
             else:  # a failed task plus one of its own descendants that also ran (must collapse)
                 t0, rt0 = failed[0]
-                desc = [(t, rt) for (t, rt, i) in drv.dispatched if t in rr[t0]]
+                # (only executions that have completed: a request naming one that is still running - possible
+                # when the workflow failed through another task - is rejected since fix R32)
+                busy_now = {(a_[0], a_[1]) for a_ in list(drv.inflight) + list(drv.dormant)}
+                desc = [(t, rt) for (t, rt, i) in drv.dispatched if t in rr[t0] and (t, rt) not in busy_now]
                 tasks = [[t0, rt0, False]] + ([[desc[0][0], desc[0][1], False]] if desc else [])
                 if desc:
                     labels.add("task-plus-descendant")
+                running_now = sorted(b_ for b_ in busy_now if b_[0] in ir["tasks"] and not ir["tasks"][b_[0]].get("with"))
+                if running_now:
+                    # a request that also names an execution whose action is still running: either rejected (no
+                    # effect) or accepted - then the running action's report must not make the engine raise
+                    before_ = common.jd(drv.c.serialize())
+                    rec_ = r.step({"op": "rerun", "tasks": tasks + [[running_now[0][0], running_now[0][1], False]]})
+                    labels.add("rerun-request-names-a-running-execution")
+                    if rec_["rejected"]:
+                        if common.jd(drv.c.serialize()) != before_:
+                            raise Violation("rejected-rerun-changed-state", dict(info, history=common.history_summary(r)))
+                    else:
+                        r.outcomes = {}
+                        a_ = [running_now[0][0], running_now[0][1], None]
+                        if a_ in drv.inflight:
+                            s_, r_ = r.outcome(a_)
+                            r.step({"op": "done", "a": a_, "status": s_, "result": r_})
+                        r.finish(stop=lambda rr_: bool(flow.late_arrivals))
+                        return
             parallel_left = flow.has_due() or bool(flow.open)
             n_disp_before = collections.Counter((t, rt_, i) for t, rt_, i in drv.dispatched)
             # last reported status of every item of the failed with-items executions
@@ -220,16 +242,20 @@ def run(scn, stats):
                     reran[(t, i)] += c - n_disp_before[(t, rt_, i)]
             # with-items: without reset_items only the items that had not succeeded run again, with it all do
             disp_now = collections.Counter((t, rt_, i) for t, rt_, i in drv.dispatched)
+            if variant == "reset":
+                reset_owed.update(failed_execs)
+            # (a rerun with reset_items that was accepted in an earlier round has reset the items even if the
+            # workflow failed again - busy variant - before the task was offered)
             reset = variant == "reset"
             for key in sorted(k_ for k_ in ok_items_before if (k_[0], k_[1]) in failed_execs):
                 again = disp_now[key] - n_disp_before.get(key, 0)
-                if not reset and again:
+                if not reset and (key[0], key[1]) not in reset_owed and again:
                     raise Violation("succeeded-item-repeated-by-rerun-without-reset", dict(info, item=list(key), times=again, history=common.history_summary(r)[-30:]))
                 labels.add("items-kept-by-rerun")
             if not late_any and item_last:
                 for key, s_ in sorted(item_last.items()):
                     again = disp_now[key] - n_disp_before.get(key, 0)
-                    if not reset and s_ == "succeeded" and again:
+                    if not reset and (key[0], key[1]) not in reset_owed and s_ == "succeeded" and again:
                         raise Violation("succeeded-item-repeated-by-rerun-without-reset", dict(info, item=list(key), times=again, history=common.history_summary(r)[-30:]))
                     if reset and not again and drv.status() == "succeeded":
                         raise Violation("item-not-repeated-by-rerun-with-reset", dict(info, item=list(key), history=common.history_summary(r)[-30:]))
